@@ -60,6 +60,11 @@ def merge_expressions(exps: BoolExpList) -> BoolExpList:
 
 
 def apply_cse(exps: BoolExpList) -> BoolExpList:
+    # cse looks at the expressions only: the intermediate symbols (which may also be
+    # re-assigned) have to be merged in the return bits first
+    if any(not is_return_bit(s) for s, e in exps):
+        exps = merge_expressions(exps)
+
     lsts = list(zip(*exps))
     repl, red = cse(list(lsts[1]))
     res = repl + list(zip(lsts[0], red))
